@@ -15,9 +15,11 @@ MANIFEST = {
             "the returned diff classifies exactly the changed keys (added/updated/deleted, previous values); removeBlock inverts "
             "saveBlock and the whole deleteBlock batch inverts the whole processBlock batch on every key outside the enumerated "
             "exceptions (finalized-height marker, temp-block records, event records pruned by saveBlock, diff records pruned on "
-            "finalisation), for fresh block/transaction ids; a removed block is stored as temp block; two databases equal outside "
-            "the exceptions stay so under the same batch (reorg confluence at batch level); the cached tip equals the database tip "
-            "after any add/remove sequence. Tie: random histories of apply/delete (blocks with/without txs, assets, events, staged "
+            "finalisation), for fresh block/transaction ids, and so does every well-bracketed history of any number of apply/remove "
+            "steps (each delete decoding the diff record found in the current database); a removed block is stored as temp block; reorg confluence with block "
+            "execution as an adaptive program: apply B, delete B, execute+apply B' reads the same values and ends in the same "
+            "database outside B's exceptions as executing B' directly; the cached tip equals the database tip after any add/remove "
+            "sequence. Tie: random histories of apply/delete (blocks with/without txs, assets, events, staged "
             "consensus-store ops, finality advances, temp flags, reorgs, re-applies) on the real code; every step's full DB dump is "
             "compared in Coq with the model batch, every delete with the dump before the matching apply (oracle).",
     "note": "Stays at blockchain+diffdb level (the harness mirrors Executer.processBlock/deleteBlock from Commit on; the full "
@@ -268,7 +270,7 @@ def run(ck):
     binp = ck.go_build("c05")
     if not binp:
         return
-    n = "120" if ck.tier == "quick" else "2500"
+    n = "120" if ck.tier == "quick" else "1500"
     recs = ck.run_harness(binp, ["-n", n])
     if recs is None:
         return
